@@ -9,6 +9,14 @@ fn main() {
             eprintln!("{}", e);
             std::process::exit(2)
         });
+        if doc.part.starts_with("driver-ledger:") {
+            let name = doc.part.split(':').nth(1).unwrap_or("").to_string();
+            vlab::util::install_quiet_panic_hook();
+            match vlab::drivers::ALL_KINDS.into_iter().find(|k| k.name() == name) {
+                Some(k) => std::process::exit(vlab::replay::replay_dfs(&doc, &move || vlab::c05_drivers::run_driver_ledger(k, vlab::drivers::TKind::Model))),
+                None => std::process::exit(2),
+            }
+        }
         if doc.part.starts_with("transports:") {
             let name = doc.part.split(':').nth(1).unwrap_or("").to_string();
             let rounds: usize = doc.part.rsplit('=').next().and_then(|x| x.parse().ok()).unwrap_or(6);
@@ -21,7 +29,7 @@ fn main() {
         std::process::exit(qcheck::replay(&doc));
     }
     let mut c = Check::new("C04", args.tier, "model_checking");
-    c.rule = "BFS over histories of add(shape)/device-complete(any in-flight chain)/pop_used(right, wrong outstanding, wrong free, empty) on the real VirtQueue; a state is distinct by the hash of its complete concrete snapshot (private fields, device-visible memory, ledger, reference device); every transition re-executes the history on the implementation and the reference device validates the published chain. Parts transports:*: a VirtQueue on each real transport (model, MMIO legacy/modern, PCI) with the platform handing out DMA regions in different 4 GiB windows; the reference device learns the queue areas only from the transport registers and must resolve every address through the platform ledger".into();
+    c.rule = "BFS over histories of add(shape)/device-complete(any in-flight chain)/pop_used(right, wrong outstanding, wrong free, empty) on the real VirtQueue; a state is distinct by the hash of its complete concrete snapshot (private fields, device-visible memory, ledger, reference device); every transition re-executes the history on the implementation and the reference device validates the published chain. Parts transports:*: a VirtQueue on each real transport (model, MMIO legacy/modern, PCI) with the platform handing out DMA regions in different 4 GiB windows; the reference device learns the queue areas only from the transport registers and must resolve every address through the platform ledger. Parts driver-ledger:*: every driver's script (every queue, buffers handed back in several orders) with unshare mismatches, unknown or repeated unshares reported after every operation".into();
     c.assumptions = qcheck::standard_assumptions();
     let plans = qcheck::tier_plans(args.tier, false);
     let budget = if args.tier == Tier::Quick { Duration::from_secs(40) } else { Duration::from_secs(1500) };
@@ -33,6 +41,15 @@ fn main() {
         let part = format!("transports:{}:rounds={}", t.name(), rounds);
         let cfg = vlab::engine::dfs::DfsConfig::new(&part, 0);
         let st = vlab::engine::dfs::explore(&cfg, &move || vlab::c04_transports::run(t, rounds));
+        c.add_dfs(&part, &st);
+    }
+    // The same discipline one level up: every driver's script (every queue touched, buffers handed
+    // back in several orders, rejected packets, late polls) with the ledger's verdict after every
+    // operation.
+    for k in vlab::drivers::ALL_KINDS {
+        let part = format!("driver-ledger:{}:model", k.name());
+        let cfg = vlab::engine::dfs::DfsConfig::new(&part, 0);
+        let st = vlab::engine::dfs::explore(&cfg, &move || vlab::c05_drivers::run_driver_ledger(k, vlab::drivers::TKind::Model));
         c.add_dfs(&part, &st);
     }
     c.finish();
